@@ -8,7 +8,7 @@ J   Judge_Query            seeded random longer queries/lines over the whole alp
                            every record decided by FzfQuery!Matches
 Python only builds inputs, moves files and compares JSON that TLC computed.
 """
-import json, os
+import glob, json, os
 from concurrent.futures import ThreadPoolExecutor
 import vlib
 from vlib import replay_cases, judge, Infra, write_ndjson, read_ndjson, log
@@ -313,6 +313,9 @@ def judge_flow(ctx, h, inputs, workers):
 
 # ------------------------------------------------------------------------------------------------ the check
 def run(ctx):
+    if not ctx.replay:      # drop this tier/seed's replay files of an earlier run (they are overwritten by index)
+        for f in glob.glob(os.path.join(vlib.EVID, "replays", ctx.prop, "%s-%d-*.json" % (ctx.tier, ctx.seed))):
+            os.remove(f)
     dev_workers = int(os.environ.get("VERIF_WORKERS", "0")) or None     # cap while other builders share the machine
     W = dev_workers or min(vlib.NCPU, 16)
 
